@@ -11,7 +11,7 @@ import json, os, random, shutil, struct, subprocess, sys
 VERIF = os.path.dirname(os.path.dirname(os.path.abspath(__file__)))
 TARGET = os.path.join(VERIF, "target")
 GEN = os.path.join(VERIF, "build", "gen")
-ENV = dict(os.environ, CARGO_TARGET_DIR=TARGET, CARGO_NET_OFFLINE="true", CARGO_TERM_COLOR="never")
+ENV = dict(os.environ, CARGO_TARGET_DIR=TARGET, CARGO_NET_OFFLINE="true", CARGO_TERM_COLOR="never", VERIF_HOME=VERIF)
 
 EASINGS = ["Linear", "Ease", "In", "Out", "InOut", "InSine", "OutSine", "InOutSine", "InQuad", "OutQuad",
            "InOutQuad", "InCubic", "OutCubic", "InOutCubic", "InQuart", "OutQuart", "InOutQuart", "InQuint",
